@@ -514,8 +514,11 @@ func streamHist(o *Out, rng *rand.Rand, thorough bool, _ []string) {
 	// a3: same keys and metric count as A but a different value type at the LAST metric and a changed first metric
 	// (a rejected Add must not leave anything behind in the slot of the next sample)
 	typeChange := []*Node{i64n("a", 99), dbl("b", 0x4024000000000000)}
-	pool := []string{hx(docBytes(schemaDoc("A", 1))), hx(docBytes(schemaDoc("A", 2))), hx(docBytes(schemaDoc("Z", 0))), hx(docBytes(typeChange))}
-	alphabet := []string{"a0", "a1", "a3", "x", "r", "z", "f", "m1", "i"}
+	// a metadata document that looks like the wire wrapper of a metadata document: {type: 0, doc: {...}, host: 7}
+	wrapperLike := []*Node{{Key: "type", Tag: 0x10, Raw: u32(0)}, sub("doc", i64n("k", 1)), i64n("host", 7)}
+	pool := []string{hx(docBytes(schemaDoc("A", 1))), hx(docBytes(schemaDoc("A", 2))), hx(docBytes(schemaDoc("Z", 0))), hx(docBytes(typeChange)),
+		hx(docBytes(wrapperLike))}
+	alphabet := []string{"a0", "a1", "a3", "x", "r", "z", "f", "m1", "m4", "i"}
 	maxLen := 3
 	if thorough {
 		maxLen = 4 // 5 would be about a million cases per stream: an hour instead of minutes
@@ -526,6 +529,9 @@ func streamHist(o *Out, rng *rand.Rand, thorough bool, _ []string) {
 		if len(prefix) > 0 {
 			for _, ctor := range cts {
 				for _, n := range []int{1, 2, 3} {
+					if !thorough && len(prefix) >= 3 && n != 2 {
+						continue // quick tier: the longest histories with one chunk size
+					}
 					run(o, fmt.Sprintf("hist %s %d - | %s | %s", ctor, n, strings.Join(pool, " "), strings.Join(prefix, " ")))
 				}
 			}
